@@ -1,15 +1,16 @@
 PROPS["C11"] = {
-    "runs": [{"cmd": "c11.gen", "quick": 60, "thorough": 900, "thorough_seeds": 2}],
-    "nontrivial": lambda c: c["kind"] == "c11.lexer" and len(c["input"]) > 60,
-    "rule": "random lexer grammars (space, comment, identifier class with 1-5 keywords incl. non-ASCII ones, numbers with and without a code action (rule->token table vs inlined tokens), "
+    "runs": [{"cmd": "c11.gen", "quick": 60, "thorough": 900, "thorough_seeds": 2},
+             {"cmd": "c11.maps", "quick": 1500, "thorough": 100000, "thorough_seeds": 2}],
+    "nontrivial": lambda c: c["kind"] in ("c11.lexer", "c11.maps") and len(c["input"]) > 60,
+    "rule": "c11.maps: the rune class tables (SymbolArr, CompressedMap) of every generated lexer and of synthetic sorted symbol maps (short and long segments, ends from 60 to 0x10FFFF) vs the model, ranges_sortedb on the generated ranges, and lookups through the implementation's own tables vs the plain map at every segment boundary neighbourhood; c11.gen: random lexer grammars (space, comment, identifier class with 1-5 keywords incl. non-ASCII ones, numbers with and without a code action (rule->token table vs inlined tokens), "
             "float/string/+== rules that need backtracking, Unicode class rule (compressed rune map), a random low-priority rule, (\\n|{eoi}) continuation, 1-2 start conditions) under the options "
             "tokenLine, tokenColumn, scanBytes, caseInsensitive, nonBacktracking; compiled by compiler.Compile + gen.Generate of the current tree, built into one scratch binary; per start condition 12 texts "
             "(keywords, near-keywords, partial floats/strings, newlines, non-ASCII, stray bytes, BOM); grammars the compiler rejects are counted and skipped; distinct = distinct (lexer, text)",
     "modelled": "gen/templates/go_lexer.go.tmpl (Init, Next with restart, DFA loop incl. end-of-input moves and checkpoints, hash accumulation, keyword switch from gen.asStringSwitch data, "
                 "handleInvalidToken in both rule-token and inlined-token modes, rewind, line/column bookkeeping, Pos/Line/Column) mirrored in LexerRT.v on the real tables; "
                 "compiler/lexer.go (resolveClasses, canInlineRules) is covered through its output",
-    "partial": "rune_class_lookup (array / compressed map = plain lookup) and next_spec are not proved; the model uses the plain symbol-map lookup and every generated lexer, incl. those with compressed maps, is compared with it",
-    "level_text": "Universal Coq theorems about the generated keyword switch (sound, complete under the bucket/hash conditions asStringSwitch establishes, identity on non-keys). "
+    "partial": "rune_class_lookup is proved for the array part (maps ending at or below 2048, and ch < 256) and for the binary search over validated ranges; the CompressedMap builder (which values go into which range) is modelled and compared with the implementation, not proved; next_spec is not proved",
+    "level_text": "Universal Coq theorems: the rune class lookup through tmRuneClass equals the plain symbol-map lookup for every sorted map (array part), mapRune's binary search returns the value of the range containing the character for every ascending disjoint range list (checked on the generated ranges each run); the generated keyword switch (sound, complete under the bucket/hash conditions asStringSwitch establishes, identity on non-keys). "
                   "The step-by-step LexerRT model is compared token by token (token, byte range, line, column, repeated end-of-input) with generated lexers built from the current tree, and "
                   "independently every stream is compared with the stream the rules define (longest match by Brzozowski derivatives, keyword over class, space skipped, invalid token with one-character progress).",
     "level_note": "Trusted: Coq kernel, extraction, glue; hooks gen/verif_hooks_switch.go, lex/verif_hooks_regexp.go. Known finding: byte-mode lexers never recognise keywords with non-ASCII characters.",
